@@ -251,7 +251,11 @@ def stepRest (s : KSrc) (t : Nat) (c0 c : Cfg) : Cfg × List Ev :=
           done c ([ev] ++ cloneEvs s taken ++ dropEvs s rest ++ [.ret (.chunk b a (a - j) (taken.map s.valAt))])
         else done c [ev, .ret .fin]
     | .skip =>
-      done c [.st (.ctr k) .seqcst len, .ret .unit]
+      if s.owning then
+        -- vec / array: `swap(len)`; the positions from the previous counter value on are dropped here
+        let skipped := rangeList (min cv len) len
+        done { c with dr := c.dr ++ skipped } ([.swp (.ctr k) .acqrel cv len] ++ dropEvs s skipped ++ [.ret .unit])
+      else done c [.st (.ctr k) .seqcst len, .ret .unit]
     | .len =>
       done c [.ld (.ctr k) .acquire cv, .ret (.len (some (lenOf len cv)))]
     | .hasmore =>
